@@ -173,6 +173,37 @@ def py_disagrees(case, r):
                 return True
     return False
 
+def _const_rhs(p):
+    acc = {}
+    for m in p:
+        acc[tuple(m[1:])] = acc.get(tuple(m[1:]), 0) + Fr(m[0])
+    return all(v == 0 for e, v in acc.items() if any(e))
+
+def py_guards(case):
+    """python mirror of the Coq guards (used by the shrinker only, so that shrinking does not drift into another class)"""
+    nodes, edges, classes = case["nodes"], case["edges"], case["classes"]
+    cls = lambda n: nodes[n][0]
+    cnt = {}
+    for ci, _ in nodes:
+        cnt[ci] = cnt.get(ci, 0) + 1
+    bad = set()
+    for u in range(len(nodes)):
+        srcs = {cls(e[0]) for e in edges if cls(e[1]) == cls(u)}
+        if not any(e[1] == u for e in edges) and Fr(classes[cls(u)]["rdef"]) != 0 and len(srcs) >= 2:
+            bad.add("default_survives")
+    if any(cnt[ci] >= 2 and _const_rhs(classes[ci]["f"]) for ci in cnt):
+        bad.add("no_constant_rhs")
+    pairs = {}
+    for s_, t, w, sv in edges:
+        pairs.setdefault((cls(s_), cls(t)), []).append((t, sv))
+    for (sc, tc), l in pairs.items():
+        if len({sv for _, sv in l}) > 1:
+            bad.add("single_source_var")
+        ts = [t for t, _ in l]
+        if cnt[sc] == 1 and len(ts) >= 10 and len(set(ts)) == len(ts):
+            bad.add("no_scalar_fanout")
+    return bad
+
 # ---------------------------------------------------------------------------------------------- generator
 def _q(rng, nums, dens):
     return str(Fr(rng.choice(nums), rng.choice(dens)))
@@ -389,7 +420,10 @@ def shrink(ctx, case):
     best = dict(case, states=case["states"][:1])
     best.pop("traj", None)
     budget = [24]
+    allowed = py_guards(case)
     def fails(c):
+        if not py_guards(c) <= allowed:          # do not drift into the class of another (known) finding
+            return False
         budget[0] -= 1
         r = run_impl(ctx, "c04", "impl", [c], nworkers=1)[0]
         return "err" in r or py_disagrees(c, r)
@@ -416,7 +450,7 @@ def raw_differs(r):
 def check(ctx):
     pr = proof_gate(ctx, NEEDS)
     problem = proof_problem(pr)
-    plan = dict(mixed=70, clean=30, sparse=12, fanout=8, traj=10) if ctx.tier == "quick" else \
+    plan = dict(mixed=100, clean=45, sparse=20, fanout=12, traj=16) if ctx.tier == "quick" else \
            dict(mixed=1400, clean=500, sparse=250, fanout=150, traj=200)
     corpus_files = []
     if ctx.replay:
